@@ -670,6 +670,11 @@ def length_forms(n, ch, allow_indef):
         names.append('long-for-short')
     forms.append(bytes([0x80 + len(d) + 1, 0] + d))
     names.append('leading-zero')
+    # X.690 8.1.3.5: up to 126 subsequent octets, whatever the value needs (more than a machine word of them included)
+    forms.append(bytes([0x80 + 9] + [0] * (9 - len(d)) + d))
+    names.append('nine-octets')
+    forms.append(bytes([0x80 + 126] + [0] * (126 - len(d)) + d))
+    names.append('126-octets')
     if allow_indef:
         forms.append(None)
         names.append('indefinite')
